@@ -58,6 +58,7 @@ type CCall struct {
 	API      string
 	ENI      string
 	Instance string
+	VSW      string // vSwitch named by a create call
 	N4, N6   int
 	IPs      []string
 	Fault    FaultKind
@@ -114,9 +115,12 @@ func (c *CtrlCloud) StopFaults() { c.mu.Lock(); c.Stopped = true; c.mu.Unlock() 
 
 func (c *CtrlCloud) code(code string) error { return codeErr(code) }
 
-func (c *CtrlCloud) begin(api, eni, inst string, n4, n6 int, ips []string, mutating bool) (*CCall, Fault) {
+func (c *CtrlCloud) begin(api, eni, inst string, n4, n6 int, ips []string, mutating bool, vsw ...string) (*CCall, Fault) {
 	c.mu.Lock()
 	call := &CCall{Seq: int64(len(c.calls) + 1), API: api, ENI: eni, Instance: inst, N4: n4, N6: n6, IPs: append([]string(nil), ips...), TCall: c.Now(), Mutating: mutating}
+	if len(vsw) > 0 {
+		call.VSW = vsw[0]
+	}
 	c.calls = append(c.calls, call)
 	var f Fault
 	if mutating {
@@ -231,7 +235,7 @@ func (c *CtrlCloud) create(ctx context.Context, opts ...client.CreateNetworkInte
 	if nio == nil {
 		return nil, client.ErrInvalidArgs
 	}
-	call, f := c.begin("CreateNetworkInterface", "", nio.InstanceID, nio.IPCount, nio.IPv6Count, nil, true)
+	call, f := c.begin("CreateNetworkInterface", "", nio.InstanceID, nio.IPCount, nio.IPv6Count, nil, true, nio.VSwitchID)
 	v := c.VSWs[nio.VSwitchID]
 	if v == nil {
 		err := codeErr("InvalidVSwitchId.NotFound")
